@@ -44,7 +44,9 @@ RULE = ('array cases = (record, container, dt, trap in {True,False}, call style)
         'Containers: float64, float32, int64, int32, int16, int8, uint8, uint16 with ordinary magnitudes, bool '
         '(round 4: on/off records - thresholded noise / quake records, 1-5 rectangular pulses, a step, all on, all off, '
         'one isolated on-sample, alternating, on except one sample - as numpy bool arrays incl. strided / reversed / '
-        'read-only views and as lists / tuples of Python bools; judged against the record with samples 0.0 / 1.0) and '
+        'read-only views and as lists / tuples of Python bools; judged by every clause against the record with samples '
+        '0.0 / 1.0, plus the driver clauses array. / obj.bool-record==integral(0/1 record) against the record the CALLER '
+        'gave, both rules, at construction and after reset_values) and '
         '"narrow-full" records (int8/uint8/int16/uint16/int32/int64 using 95% of the dtype\'s range, some containing '
         'iinfo.min / iinfo.max, so that neighbour sums, integer dt * sample and abs() leave the dtype), '
         'x[::2]-type and negative-stride views, read-only arrays, lists / tuples of floats, of Python ints, mixed '
